@@ -220,7 +220,11 @@ def check_config(name, o, D, res, viol):
                 for i in range(D):
                     col = sim[:, :, i] if ff[i] is None else np.array([ff[i](sim[e, :, i]) for e in range(E)])
                     with np.errstate(all="ignore"):
-                        tot += ww[i] * float(make(name, o).compute_loss_1d(col, real[:, i]))
+                        try:
+                            tot += ww[i] * float(make(name, o).compute_loss_1d(col, real[:, i]))
+                        except Exception as e:  # noqa: BLE001
+                            RAISED.append(f"compute_loss_1d: {type(e).__name__}: {e}")
+                            tot = float("nan")
                 res["evaluations"] += 1
                 if not same(fresh[1], tot):
                     viol("not-weight-linear:" + name, f"{tag}: compute_loss = {fresh[1]!r}, sum_i w_i * compute_loss_1d(filtered_i) = {tot!r}", case)
